@@ -340,7 +340,72 @@ def run_sequence(api, root, case):
     return res
 
 
+def step_main():
+    """`python -m vlib.impl.c19 --step <json>`: one transfer_model call in its own process; with kill_after = n the
+    process kills itself (SIGKILL) right after the n-th _codegen_model call returns, i.e. after the last shared
+    library has been rebuilt and before save_model writes the cache file."""
+    import signal
+    import sys
+    spec = json.loads(sys.argv[2])
+    api = _patch()
+    if spec.get("kill_after"):
+        orig = api._codegen_model
+        count = {"n": 0}
+
+        def dying(model_folder, f, library_name):
+            lib = orig(model_folder, f, library_name)
+            count["n"] += 1
+            if count["n"] == spec["kill_after"]:
+                os.kill(os.getpid(), signal.SIGKILL)
+            return lib
+
+        api._codegen_model = dying
+    os.chdir(spec["cwd"])
+    api.transfer_model(spec["folder"], spec["name"], spec["opts"])
+
+
+def run_interrupted(api, root, case):
+    """(1) complete codegen save with options A, own process; (2) codegen save with options B killed after the
+    last _codegen_model call, own process; (3) here: load with A (twice) and compare with a fresh compile with A."""
+    import subprocess
+    import sys
+    folder = os.path.join(root, "m")
+    os.makedirs(folder)
+    name = case["name"]
+    with open(os.path.join(folder, name + ".mo"), "w") as f:
+        f.write(case["text"])
+    opts_a = dict(case["steps"][0], codegen=True)
+    opts_b = dict(case["interrupted"]["opts_b"], codegen=True)
+    res = {"mode": "codegen", "interrupted": True}
+    for key, opts, kill in (("step1", opts_a, 0), ("step2", opts_b, len(FUNS))):
+        spec = {"cwd": root, "folder": folder, "name": name, "opts": opts, "kill_after": kill}
+        p = subprocess.run([sys.executable, "-m", "vlib.impl.c19", "--step", json.dumps(spec)],
+                           capture_output=True, text=True, timeout=600)
+        res[key + "_rc"] = p.returncode
+        if key == "step1" and p.returncode != 0:
+            return {"harness": "step 1 (complete codegen save) failed rc=%s: %s" % (p.returncode, p.stderr[-300:])}
+    res["cache_file_after_interrupted_save"] = os.path.exists(os.path.join(folder, name + ".pymoca_cache"))
+    rec = {}
+    ref = dict(case["steps"][0], cache=False, codegen=False)
+    try:
+        rec["fresh"] = observe(api.transfer_model(folder, name, ref))
+    except Exception as e:  # noqa
+        rec["fresh_exc"] = type(e).__name__
+    for key in ("a", "b"):
+        c0 = _state["compiles"]
+        try:
+            rec[key] = observe(api.transfer_model(folder, name, dict(opts_a)))
+        except Exception as e:  # noqa
+            rec[key + "_exc"] = type(e).__name__
+            rec[key + "_msg"] = str(e)[:200].replace(root, "<root>")
+        rec[key + "_compiles"] = _state["compiles"] - c0
+    res["steps"] = [rec]
+    return res
+
+
 def run_case(api, root, case):
+    if "interrupted" in case:
+        return run_interrupted(api, root, case)
     if "steps" in case:
         return run_sequence(api, root, case)
     folder = os.path.join(root, "m")
@@ -404,4 +469,8 @@ def run_case(api, root, case):
 
 
 if __name__ == "__main__":
-    child_main(handler)
+    import sys
+    if len(sys.argv) > 2 and sys.argv[1] == "--step":
+        step_main()
+    else:
+        child_main(handler)
